@@ -452,14 +452,17 @@ Definition wp_for (W : post -> store -> Prop) (l : nat) (x : var) (lo hi : expr)
           (h <= a -> normal Q st) /\
           (a < h ->
              agree mods st (set st x (Sc (VInt a))) /\ fact st (set st x (Sc (VInt a))) /\
+             (* an iteration, entered with x = i, re-establishes the fact for x = i + 1 *)
              havoc mods st (fun s =>
                let i := to_int (getsc s x) in
                get s x = Sc (VInt i) -> a <= i < h -> fact st s ->
-               W (mkPost (fun s' =>
-                               (i + 1 < h -> agree mods st (set s' x (Sc (VInt (i + 1))))
-                                             /\ fact st (set s' x (Sc (VInt (i + 1)))))
-                               /\ (h <= i + 1 -> normal Q s'))
-                            (normal Q) (ret Q)) s))
+               W (mkPost (fun s' => agree mods st s'
+                                    /\ agree mods st (set s' x (Sc (VInt (i + 1))))
+                                    /\ fact st (set s' x (Sc (VInt (i + 1)))))
+                         (normal Q) (ret Q)) s) /\
+             (* after the last iteration the fact holds "for x = h"; the continuation is proved
+                once, from any such state *)
+             havoc mods st (fun s => fact st (set s x (Sc (VInt h))) -> normal Q s))
       | _ => False
       end
 .
@@ -622,25 +625,28 @@ Proof.
     destruct H as [H1 [H2 [H3 H4]]].
     rewrite (esafe_sound _ _ H1), (esafe_sound _ _ H2).
     set (a := to_int (evalv lo st)) in *. set (h := to_int (evalv hi st)) in *.
-    assert (L : forall k, (k <= S n)%nat -> forall i s, a <= i -> a < h ->
-                (i < h -> agree mods st (set s x (Sc (VInt i))) /\ fact st (set s x (Sc (VInt i)))) ->
-                (h <= i -> normal Q s) ->
+    assert (L : forall k, (k <= S n)%nat -> forall i s, a <= i < h -> 
+                agree mods st (set s x (Sc (VInt i))) -> fact st (set s x (Sc (VInt i))) ->
                 post_holds (exec env k (SForRun l x i h c) s) Q).
-    { induction k as [|k IHk]; intros Hk i s Hi Hah Hin Hout; [exact I|].
-      simpl. destruct (i <? h) eqn:E.
-      - apply Z.ltb_lt in E. destruct (Hin E) as [A F].
-        destruct (H4 Hah) as [_ [_ HH]].
-        pose proof (havoc_agree _ _ _ HH _ A) as W. simpl in W.
-        unfold getsc in W. rewrite get_set_same in W. simpl in W.
-        specialize (W eq_refl (conj Hi E) F).
-        assert (Hk' : (k <= n)%nat) by lia.
-        pose proof (IHn k Hk' _ _ _ W) as P.
-        destruct (exec env k c (set s x (Sc (VInt i)))) as [s'|s'|rs|e|]; simpl in P; try exact P.
-        destruct P as [P1 P2]. apply IHk; try lia; assumption.
-      - apply Z.ltb_ge in E. exact (Hout E). }
+    { induction k as [|k IHk]; intros Hk i s Hi A F; [exact I|].
+      simpl. assert (E : (i <? h) = true) by (apply Z.ltb_lt; lia). rewrite E.
+      destruct (H4 ltac:(lia)) as [_ [_ [HH HX]]].
+      pose proof (havoc_agree _ _ _ HH _ A) as W. simpl in W.
+      unfold getsc in W. rewrite get_set_same in W. simpl in W.
+      specialize (W eq_refl Hi F).
+      assert (Hk' : (k <= n)%nat) by lia.
+      pose proof (IHn k Hk' _ _ _ W) as P.
+      destruct (exec env k c (set s x (Sc (VInt i)))) as [s'|s'|rs|e|]; simpl in P; try exact P.
+      destruct P as [P0 [P1 P2]].
+      destruct (Z_lt_le_dec (i + 1) h) as [Hlt|Hge].
+      - apply IHk; try lia; assumption.
+      - destruct k as [|k']; [exact I|]. simpl.
+        assert (E' : (i + 1 <? h) = false) by (apply Z.ltb_ge; lia). rewrite E'.
+        assert (Eh : i + 1 = h) by lia. rewrite Eh in P2.
+        exact (havoc_agree _ _ _ HX s' P0 P2). }
     destruct (Z_lt_le_dec a h) as [Hah|Hah].
     + destruct (H4 Hah) as [A [F _]].
-      apply (L f ltac:(lia) a st); [lia | exact Hah | intros _; split; assumption | intros; lia].
+      apply (L f ltac:(lia) a st); [lia | exact A | exact F].
     + destruct f as [|f']; [exact I|]. simpl.
       assert (E : (a <? h) = false) by (apply Z.ltb_ge; lia). rewrite E. exact (H3 Hah).
   - (* SForRun *) contradiction.
